@@ -5,7 +5,7 @@ CONSTANTS
   MaxCopies = 2
   MaxEdits = 1
   MaxReopens = 2
-  EditOps = {"channels", "timing_mark"}
+  EditOps = {"channels"}
   CopyModes = {"plain-same", "mask-same", "extent-same", "plain-other", "extent-other"}
   MaskNames = {"lo", "mid"}
   Focus = TRUE
